@@ -1,4 +1,4 @@
-import Okane.Lemmas.C13CmdBase
+import Okane.Lemmas.C13CmdBook
 import Okane.Model.Process
 /-!
 # C13, command level (2): book-keeping (`process`) does not depend on the layout of any of its hash maps
@@ -168,5 +168,499 @@ theorem evalMut_meq (e : VExpr) {s s' : Store} (h : StoreEq s s') :
 theorem evalRo_meq (e : VExpr) {s s' : Store} (h : StoreEq s s') :
     ORel (· = ·) EvEq (evalRo s e) (evalRo s' e) :=
   ORel.map' _ _ (fun _ _ h => h.1) (evalVExprWith_meq leafRo_ok e s s' h)
+
+/-- a value (without maps) and a store. -/
+def EqStore {β : Type} (p p' : β × Store) : Prop := p.1 = p'.1 ∧ StoreEq p.2 p'.2
+
+theorem liftEval_meq {β : Type} {R : β → β → Prop} {x x' : Outcome EvalErr β} (h : ORel (· = ·) R x x') :
+    ORel (ErrEq (κ := String)) R (liftEval x) (liftEval x') := by
+  cases x <;> cases x' <;> simp_all [ORel, liftEval, ErrEq]
+
+/-- `Exchange::try_from_syntax` -/
+theorem resolveExchange_meq {s s' : Store} (h : StoreEq s s') (amount : PostingAmt String) (x : Exchange) :
+    ORel ErrEq EqStore (resolveExchange s amount x) (resolveExchange s' amount x) := by
+  have key : ∀ (isTotal : Bool) (e : VExpr),
+      ORel (ErrEq (κ := String)) EqStore
+        (match evalMut s e with
+          | .ok (v, s') =>
+            match v.toSingle with
+            | .ok rate =>
+              if rate.value = 0 then .err .zeroExchangeRate
+              else match amount with
+                | .zero => .err .zeroAmountWithExchange
+                | .single a =>
+                  if a.commodity = rate.commodity then .err .exchangeWithAmountCommodity
+                  else .ok (if isTotal then RExchange.total rate else .rate rate, s')
+            | .err e => .err (.evalFailure e)
+            | .panic p => .panic p
+            | .fuelOut => .fuelOut
+          | .err e => .err (.evalFailure e)
+          | .panic p => .panic p
+          | .fuelOut => .fuelOut)
+        (match evalMut s' e with
+          | .ok (v, s') =>
+            match v.toSingle with
+            | .ok rate =>
+              if rate.value = 0 then .err .zeroExchangeRate
+              else match amount with
+                | .zero => .err .zeroAmountWithExchange
+                | .single a =>
+                  if a.commodity = rate.commodity then .err .exchangeWithAmountCommodity
+                  else .ok (if isTotal then RExchange.total rate else .rate rate, s')
+            | .err e => .err (.evalFailure e)
+            | .panic p => .panic p
+            | .fuelOut => .fuelOut
+          | .err e => .err (.evalFailure e)
+          | .panic p => .panic p
+          | .fuelOut => .fuelOut) := by
+    intro isTotal e
+    have ih := evalMut_meq e h
+    orel_cases ih, evalMut s e, evalMut s' e
+    · rename_i a b
+      obtain ⟨v, s1⟩ := a
+      obtain ⟨v', s1'⟩ := b
+      simp only [EvEq.toSingle ih.1]
+      cases v'.toSingle with
+      | ok rate =>
+        simp only []
+        by_cases hz : rate.value = 0
+        · simp [hz, ORel, ErrEq]
+        · simp only [hz, if_false]
+          cases amount with
+          | zero => simp [ORel, ErrEq]
+          | single a =>
+            simp only []
+            by_cases hc : a.commodity = rate.commodity
+            · simp [hc, ORel, ErrEq]
+            · simp only [hc, if_false, ORel]; exact ⟨rfl, ih.2⟩
+      | err e => simp [ORel, ErrEq]
+      | panic p => simp [ORel]
+      | fuelOut => simp [ORel]
+    all_goals orel_done ih
+  cases x with
+  | total e => exact key true e
+  | rate e => exact key false e
+
+theorem resolveOptExchange_meq {s s' : Store} (h : StoreEq s s') (amount : PostingAmt String) (x : Option Exchange) :
+    ORel ErrEq EqStore (resolveOptExchange s amount x) (resolveOptExchange s' amount x) := by
+  cases x with
+  | none => exact ⟨rfl, h⟩
+  | some x =>
+    have ih := resolveExchange_meq h amount x
+    simp only [resolveOptExchange]
+    orel_cases ih, resolveExchange s amount x, resolveExchange s' amount x
+    · rename_i a b
+      obtain ⟨r, s1⟩ := a
+      obtain ⟨r', s1'⟩ := b
+      obtain ⟨h1, h2⟩ := ih
+      simp only at h1; subst h1
+      exact ⟨rfl, h2⟩
+    all_goals orel_done ih
+
+theorem evalPostingAmt_meq {s s' : Store} (h : StoreEq s s') (e : VExpr) :
+    ORel ErrEq EqStore (evalPostingAmt s e) (evalPostingAmt s' e) := by
+  have ih := evalMut_meq e h
+  simp only [evalPostingAmt]
+  orel_cases ih, evalMut s e, evalMut s' e
+  · rename_i a b
+    obtain ⟨v, s1⟩ := a
+    obtain ⟨v', s1'⟩ := b
+    simp only [EvEq.toPosting ih.1]
+    cases v'.toPosting with
+    | ok p => exact ⟨rfl, ih.2⟩
+    | err e => simp [ORel, ErrEq]
+    | panic p => simp [ORel]
+    | fuelOut => simp [ORel]
+  all_goals orel_done ih
+
+/-- `ComputedPosting::compute_from_syntax` -/
+theorem resolveAmount_meq {s s' : Store} (h : StoreEq s s') (pa : PostingAmount) :
+    ORel ErrEq EqStore (resolveAmount s pa) (resolveAmount s' pa) := by
+  have ih := evalPostingAmt_meq h pa.amount
+  simp only [resolveAmount]
+  orel_cases ih, evalPostingAmt s pa.amount, evalPostingAmt s' pa.amount
+  · rename_i a b
+    obtain ⟨amount, s1⟩ := a
+    obtain ⟨amount', s1'⟩ := b
+    obtain ⟨h1, h2⟩ := ih
+    simp only at h1 h2; subst h1
+    have ih2 := resolveOptExchange_meq h2 amount pa.cost
+    simp only []
+    orel_cases ih2, resolveOptExchange s1 amount pa.cost, resolveOptExchange s1' amount pa.cost
+    · rename_i a b
+      obtain ⟨cost, s2⟩ := a
+      obtain ⟨cost', s2'⟩ := b
+      obtain ⟨h3, h4⟩ := ih2
+      simp only at h3 h4; subst h3
+      have ih3 := resolveOptExchange_meq h4 amount pa.lot.price
+      simp only []
+      orel_cases ih3, resolveOptExchange s2 amount pa.lot.price, resolveOptExchange s2' amount pa.lot.price
+      · rename_i a b
+        obtain ⟨lot, s3⟩ := a
+        obtain ⟨lot', s3'⟩ := b
+        obtain ⟨h5, h6⟩ := ih3
+        simp only at h5 h6; subst h5
+        cases amount <;> cases cost <;> cases lot <;> simp only [ORel] <;>
+          first | exact ⟨rfl, h6⟩ | rfl | trivial
+      all_goals orel_done ih3
+    all_goals orel_done ih2
+  all_goals orel_done ih
+
+theorem resolveOptBalance_meq {s s' : Store} (h : StoreEq s s') (e : Option VExpr) :
+    ORel ErrEq EqStore (resolveOptBalance s e) (resolveOptBalance s' e) := by
+  cases e with
+  | none => exact ⟨rfl, h⟩
+  | some e =>
+    have ih := evalPostingAmt_meq h e
+    simp only [resolveOptBalance]
+    orel_cases ih, evalPostingAmt s e, evalPostingAmt s' e
+    · rename_i a b
+      obtain ⟨r, s1⟩ := a
+      obtain ⟨r', s1'⟩ := b
+      obtain ⟨h1, h2⟩ := ih
+      simp only at h1; subst h1
+      exact ⟨rfl, h2⟩
+    all_goals orel_done ih
+
+/-- a resolved posting (it contains no map) and the context. -/
+def EqCtx {β : Type} (p p' : β × Ctx) : Prop := p.1 = p'.1 ∧ CtxEq p.2 p'.2
+
+/-- **name resolution and evaluation of one posting** give the same resolved posting. -/
+theorem resolvePosting_meq {c c' : Ctx} (h : CtxEq c c') (p : Posting) :
+    ORel ErrEq EqCtx (resolvePosting c p) (resolvePosting c' p) := by
+  have he := h.accounts.ensure p.account
+  simp only [resolvePosting]
+  rw [he.1]
+  cases hp : p.amount with
+  | none =>
+    have ih := resolveOptBalance_meq h.commodities p.balance
+    simp only []
+    orel_cases ih, resolveOptBalance c.commodities p.balance, resolveOptBalance c'.commodities p.balance
+    · rename_i a b
+      obtain ⟨r, s1⟩ := a
+      obtain ⟨r', s1'⟩ := b
+      obtain ⟨h1, h2⟩ := ih
+      simp only at h1; subst h1
+      exact ⟨rfl, ⟨he.2, h2, h.formatting⟩⟩
+    all_goals orel_done ih
+  | some pa =>
+    have ih := resolveAmount_meq h.commodities pa
+    simp only []
+    orel_cases ih, resolveAmount c.commodities pa, resolveAmount c'.commodities pa
+    · rename_i a b
+      obtain ⟨ra, s1⟩ := a
+      obtain ⟨ra', s1'⟩ := b
+      obtain ⟨h1, h2⟩ := ih
+      simp only at h1 h2; subst h1
+      have ih2 := resolveOptBalance_meq h2 p.balance
+      simp only []
+      orel_cases ih2, resolveOptBalance s1 p.balance, resolveOptBalance s1' p.balance
+      · rename_i a b
+        obtain ⟨r, s2⟩ := a
+        obtain ⟨r', s2'⟩ := b
+        obtain ⟨h3, h4⟩ := ih2
+        simp only at h3; subst h3
+        exact ⟨rfl, ⟨he.2, h4, h.formatting⟩⟩
+      all_goals orel_done ih2
+    all_goals orel_done ih
+
+/-! ## `add_transaction` on a syntax transaction -/
+
+/-- the context and the loop state. -/
+def CtxSt (p p' : Ctx × TxnState String String) : Prop := CtxEq p.1 p'.1 ∧ TxnStEq p.2 p'.2
+
+theorem loopSyntax_meq (date : Date) (ps : List Posting) : ∀ {c c' : Ctx} {st st' : TxnState String String},
+    CtxEq c c' → TxnStEq st st' → ∀ (idx : Nat),
+    ORel ErrEq CtxSt (loopSyntax date c st idx ps) (loopSyntax date c' st' idx ps) := by
+  induction ps with
+  | nil => intro c c' st st' hc hs idx; exact ⟨hc, hs⟩
+  | cons p ps ih =>
+    intro c c' st st' hc hs idx
+    have h1 := resolvePosting_meq hc p
+    simp only [loopSyntax]
+    orel_cases h1, resolvePosting c p, resolvePosting c' p
+    · rename_i a b
+      obtain ⟨rp, c1⟩ := a
+      obtain ⟨rp', c1'⟩ := b
+      obtain ⟨e1, e2⟩ := h1
+      simp only at e1 e2; subst e1
+      have h2 := stepPosting_meq date hs idx rp
+      simp only []
+      orel_cases h2, stepPosting date st idx rp, stepPosting date st' idx rp
+      · exact ih e2 h2 (idx + 1)
+      all_goals orel_done h2
+    all_goals orel_done h1
+
+theorem finishTxn_eq_finishK (prec : String → Option Nat) (date : Date) (st : TxnState String String) :
+    finishTxn prec date st = finishK prec date st := by
+  unfold finishTxn finishK
+  cases st.unfilled with
+  | none =>
+    simp only []
+    cases checkBalance prec date st.postings st.balance <;> rfl
+  | some u =>
+    simp only []
+    cases (st.postings[u]?).map (·.account) <;> rfl
+
+/-- the context and the result of `add_transaction`. -/
+def CtxRes (p p' : Ctx × TxnResult String String) : Prop := CtxEq p.1 p'.1 ∧ TxnResEq p.2 p'.2
+
+/-- **`add_transaction`** (evaluation, book-keeping, `check_balance`) on related contexts and balances. -/
+theorem addTransactionSyntax_meq {c c' : Ctx} (hc : CtxEq c c') {bal bal' : Balance String String} (hb : bal ≈ᵦ bal')
+    (t : Transaction) :
+    ORel ErrEq CtxRes (addTransactionSyntax c bal t) (addTransactionSyntax c' bal' t) := by
+  have h1 := loopSyntax_meq t.date t.posts hc (TxnStEq.init hb) 0
+  simp only [addTransactionSyntax]
+  orel_cases h1, loopSyntax t.date c ⟨[], none, [], bal, [], []⟩ 0 t.posts,
+    loopSyntax t.date c' ⟨[], none, [], bal', [], []⟩ 0 t.posts
+  · rename_i a b
+    obtain ⟨c1, st⟩ := a
+    obtain ⟨c1', st'⟩ := b
+    obtain ⟨e1, e2⟩ := h1
+    simp only at e1 e2
+    have h2 := finishK_meq c1.prec t.date e2
+    simp only [finishTxn_eq_finishK, ← e1.prec]
+    orel_cases h2, finishK c1.prec t.date st, finishK c1.prec t.date st'
+    · exact ⟨e1, h2⟩
+    all_goals orel_done h2
+  all_goals orel_done h1
+
+/-! ## `process` -/
+
+/-- **the accumulator of `process`, up to the layout of every hash map in it**: the intern stores, the declared
+formats, the balance (and each account's amount), the amount of every evaluated posting; the price events logged
+by `check_balance` may name their two sides in either order. -/
+structure ProcEq (st st' : ProcState) : Prop where
+  ctx : CtxEq st.ctx st'.ctx
+  bal : st.bal ≈ᵦ st'.bal
+  txns : LRel TxnEq st.txns st'.txns
+  events : LRel PEvEq st.events st'.events
+
+@[inherit_doc] scoped infix:50 " ≈ₚ " => ProcEq
+
+theorem ProcEq.symm {st st' : ProcState} (h : st ≈ₚ st') : st' ≈ₚ st :=
+  ⟨h.ctx.symm, h.bal.symm, LRel.symm (R := TxnEq) (S := TxnEq) (fun _ _ => TxnEq.symm) h.txns,
+    LRel.symm (R := PEvEq) (S := PEvEq) (fun _ _ => PEvEq.symm) h.events⟩
+
+theorem ProcEq.trans {a b c : ProcState} (h1 : a ≈ₚ b) (h2 : b ≈ₚ c) : a ≈ₚ c :=
+  ⟨h1.ctx.trans h2.ctx, h1.bal.trans h2.bal, LRel.trans (R := TxnEq) (S := TxnEq) (T := TxnEq) (fun _ _ _ => TxnEq.trans) h1.txns h2.txns,
+    LRel.trans (R := PEvEq) (S := PEvEq) (T := PEvEq) (fun _ _ _ => PEvEq.trans) h1.events h2.events⟩
+
+/-- a related state is a well-formed state (all maps have distinct keys). -/
+theorem ProcEq.left {st st' : ProcState} (h : st ≈ₚ st') : st ≈ₚ st := h.trans h.symm
+theorem ProcEq.right {st st' : ProcState} (h : st ≈ₚ st') : st' ≈ₚ st' := h.symm.trans h
+
+/-- the empty accumulator. -/
+theorem ProcEq.init : ({} : ProcState) ≈ₚ {} :=
+  ⟨⟨MEq.nil, MEq.nil, MEq.nil⟩, BalEq.nil, .nil, .nil⟩
+
+theorem insertAliases_meq {s s' : Store} (h : StoreEq s s') (canonical : String) (as : List String) :
+    ORel (· = ·) StoreEq (insertAliases s canonical as) (insertAliases s' canonical as) := by
+  induction as generalizing s s' with
+  | nil => exact h
+  | cons a rest ih =>
+    have h1 := h.insertAlias a canonical
+    simp only [insertAliases]
+    orel_cases h1, s.insertAlias a canonical, s'.insertAlias a canonical
+    · exact ih h1
+    all_goals orel_done h1
+
+theorem applyCommodityDetails_meq {c c' : Ctx} (h : CtxEq c c') (canonical : String) (ds : List CommodityDetail) :
+    ORel ErrEq CtxEq (applyCommodityDetails c canonical ds) (applyCommodityDetails c' canonical ds) := by
+  induction ds generalizing c c' with
+  | nil => exact h
+  | cons d rest ih =>
+    cases d with
+    | «alias» a =>
+      have h1 := h.commodities.insertAlias a canonical
+      simp only [applyCommodityDetails]
+      orel_cases h1, c.commodities.insertAlias a canonical, c'.commodities.insertAlias a canonical
+      · exact ih ⟨h.accounts, h1, h.formatting⟩
+      all_goals orel_done h1
+    | format value x =>
+      simp only [applyCommodityDetails]
+      exact ih ⟨h.accounts, h.commodities, h.formatting.insert _ _⟩
+    | comment x => simp only [applyCommodityDetails]; exact ih h
+    | note x => simp only [applyCommodityDetails]; exact ih h
+
+/-- **one entry of `ProcessAccumulator::process`.** -/
+theorem stepEntry_meq {st st' : ProcState} (h : st ≈ₚ st') (e : Entry) :
+    ORel ErrEq ProcEq (stepEntry st e) (stepEntry st' e) := by
+  cases e with
+  | txn t =>
+    have h1 := addTransactionSyntax_meq h.ctx h.bal t
+    simp only [stepEntry]
+    orel_cases h1, addTransactionSyntax st.ctx st.bal t, addTransactionSyntax st'.ctx st'.bal t
+    · rename_i a b
+      obtain ⟨c1, r⟩ := a
+      obtain ⟨c1', r'⟩ := b
+      obtain ⟨e1, e2⟩ := h1
+      exact ⟨e1, e2.bal, h.txns.append (.cons ⟨e2.date, e2.postings⟩ .nil), h.events.append e2.events⟩
+    all_goals orel_done h1
+  | account name details =>
+    have h1 := h.ctx.accounts.insertCanonical name
+    simp only [stepEntry]
+    orel_cases h1, st.ctx.accounts.insertCanonical name, st'.ctx.accounts.insertCanonical name
+    · rename_i a b
+      obtain ⟨canonical, s1⟩ := a
+      obtain ⟨canonical', s1'⟩ := b
+      obtain ⟨e1, e2⟩ := h1
+      simp only at e1 e2; subst e1
+      have h2 := insertAliases_meq e2 canonical (details.filterMap fun | .alias a => some a | _ => none)
+      simp only []
+      orel_cases h2, insertAliases s1 canonical (details.filterMap fun | .alias a => some a | _ => none),
+        insertAliases s1' canonical (details.filterMap fun | .alias a => some a | _ => none)
+      · exact ⟨⟨h2, h.ctx.commodities, h.ctx.formatting⟩, h.bal, h.txns, h.events⟩
+      all_goals orel_done h2
+    all_goals orel_done h1
+  | commodity name details =>
+    have h1 := h.ctx.commodities.insertCanonical name
+    simp only [stepEntry]
+    orel_cases h1, st.ctx.commodities.insertCanonical name, st'.ctx.commodities.insertCanonical name
+    · rename_i a b
+      obtain ⟨canonical, s1⟩ := a
+      obtain ⟨canonical', s1'⟩ := b
+      obtain ⟨e1, e2⟩ := h1
+      simp only at e1 e2; subst e1
+      have h2 := applyCommodityDetails_meq (c := { st.ctx with commodities := s1 })
+        (c' := { st'.ctx with commodities := s1' }) ⟨h.ctx.accounts, e2, h.ctx.formatting⟩ canonical details
+      simp only []
+      orel_cases h2, applyCommodityDetails { st.ctx with commodities := s1 } canonical details,
+        applyCommodityDetails { st'.ctx with commodities := s1' } canonical details
+      · exact ⟨h2, h.bal, h.txns, h.events⟩
+      all_goals orel_done h2
+    all_goals orel_done h1
+  | comment s => exact h
+  | applyTag k v => exact h
+  | endApplyTag => exact h
+  | «include» p => exact h
+
+/-- the error of `process`: the index of the offending entry and the book-keeping error. -/
+def PErrEq (x x' : Nat × BkErrS) : Prop := x.1 = x'.1 ∧ ErrEq x.2 x'.2
+
+/-- **`process` maps related accumulators to related accumulators and fails with the same error at the same
+entry.** -/
+theorem processFrom_meq (es : List Entry) : ∀ {st st' : ProcState}, st ≈ₚ st' → ∀ (i : Nat),
+    ORel PErrEq ProcEq (processFrom st i es) (processFrom st' i es) := by
+  induction es with
+  | nil => intro st st' h i; exact h
+  | cons e es ih =>
+    intro st st' h i
+    have h1 := stepEntry_meq h e
+    simp only [processFrom]
+    orel_cases h1, stepEntry st e, stepEntry st' e
+    · exact ih h1 (i + 1)
+    · exact False.elim h1
+    · exact False.elim h1
+    · exact False.elim h1
+    · exact False.elim h1
+    · exact ⟨rfl, h1⟩
+    all_goals orel_done h1
+
+/-- **`process` as a function of the entry list** reaches a well-formed accumulator (every map has distinct
+keys), whatever it does. -/
+theorem process_wf (es : List Entry) : ORel PErrEq ProcEq (process es) (process es) :=
+  processFrom_meq es ProcEq.init 0
+
+/-! ## `process` with an explicit re-layout of every hash map between entries
+
+A Rust `HashMap` may change its iteration order whenever it is modified (growth re-hashes), and the order is
+different in every process.  `processScr π` is `process` where after entry `i` the accumulator is replaced by
+`π i` of it; `Relayout π` says that `π` only re-orders maps.  The result does not depend on `π`. -/
+
+def processScr (π : Nat → ProcState → ProcState) : ProcState → Nat → List Entry → Outcome (Nat × BkErrS) ProcState
+  | st, _, [] => .ok st
+  | st, i, e :: es =>
+    match stepEntry st e with
+    | .ok st' => processScr π (π i st') (i + 1) es
+    | .err x => .err (i, x)
+    | .panic s => .panic s
+    | .fuelOut => .fuelOut
+
+/-- `π` changes nothing but the order of the entries of the maps of a (well-formed) accumulator. -/
+def Relayout (π : Nat → ProcState → ProcState) : Prop := ∀ i st, st ≈ₚ st → st ≈ₚ π i st
+
+theorem relayout_id : Relayout (fun _ st => st) := fun _ _ h => h
+
+theorem processScr_id (st : ProcState) (i : Nat) (es : List Entry) :
+    processScr (fun _ st => st) st i es = processFrom st i es := by
+  induction es generalizing st i with
+  | nil => rfl
+  | cons e es ih =>
+    simp only [processScr, processFrom]
+    cases stepEntry st e <;> simp only [ih]
+
+theorem processScr_meq {π₁ π₂ : Nat → ProcState → ProcState} (h1 : Relayout π₁) (h2 : Relayout π₂) (es : List Entry) :
+    ∀ {st st' : ProcState}, st ≈ₚ st' → ∀ (i : Nat),
+    ORel PErrEq ProcEq (processScr π₁ st i es) (processScr π₂ st' i es) := by
+  induction es with
+  | nil => intro st st' h i; exact h
+  | cons e es ih =>
+    intro st st' h i
+    have hs := stepEntry_meq h e
+    simp only [processScr]
+    orel_cases hs, stepEntry st e, stepEntry st' e
+    · rename_i a b
+      exact ih (((h1 i a hs.left).symm.trans hs).trans (h2 i b hs.right)) (i + 1)
+    · exact False.elim hs
+    · exact False.elim hs
+    · exact False.elim hs
+    · exact False.elim hs
+    · exact ⟨rfl, hs⟩
+    all_goals orel_done hs
+
+/-! ## a non-trivial re-layout: every map reversed -/
+
+theorem LRel.map_right_of_refl {β : Type} {R : β → β → Prop} (f : β → β) (hf : ∀ a, R a a → R a (f a)) :
+    ∀ (l : List β), LRel R l l → LRel R l (l.map f)
+  | [], _ => .nil
+  | a :: l, h => by
+    cases h with
+    | cons hab htl => exact .cons (hf a hab) (LRel.map_right_of_refl f hf l htl)
+
+theorem MEq.reverse {κ ν : Type} [DecidableEq κ] {m : AMap κ ν} (h : m ≈ₘ m) : m ≈ₘ m.reverse :=
+  ⟨h.wf, (List.reverse_perm m).symm⟩
+
+theorem BalEq.reverse {b : Balance String String} (h : b ≈ᵦ b) :
+    b ≈ᵦ (b.map fun kv => (kv.1, kv.2.reverse)).reverse := by
+  have hw : AMap.WF (AMap.mapVals List.reverse b) := AMap.WF_mapVals _ _ h.wf
+  have hp : (AMap.mapVals List.reverse b).Perm (b.map fun kv => (kv.1, kv.2.reverse)).reverse :=
+    (List.reverse_perm _).symm
+  refine ⟨h.wf, (WF_perm hp).1 hw, fun a => ?_⟩
+  rw [← get?_perm hp hw a, AMap.get?_mapVals]
+  have := h.rel a
+  revert this
+  cases AMap.get? b a <;> simp only [OptRel, Option.map] <;> intro hx
+  · trivial
+  · exact MEq.reverse hx
+
+/-- every hash map of the accumulator in the opposite iteration order; price events with their sides exchanged. -/
+def relayoutRev (st : ProcState) : ProcState :=
+  { ctx := ⟨⟨st.ctx.accounts.recs.reverse⟩, ⟨st.ctx.commodities.recs.reverse⟩, st.ctx.formatting.reverse⟩
+    bal := (st.bal.map fun kv => (kv.1, kv.2.reverse)).reverse
+    txns := st.txns.map fun t => ⟨t.date, t.postings.map fun p => { p with amount := p.amount.reverse }⟩
+    events := st.events.map fun e => if e.x.commodity = e.y.commodity then e else ⟨e.date, e.y, e.x⟩ }
+
+theorem relayoutRev_meq {st : ProcState} (h : st ≈ₚ st) : st ≈ₚ relayoutRev st := by
+  refine ⟨⟨MEq.reverse h.ctx.accounts, MEq.reverse h.ctx.commodities, MEq.reverse h.ctx.formatting⟩,
+    BalEq.reverse h.bal, ?_, ?_⟩
+  · refine LRel.map_right_of_refl _ (fun t ht => ⟨rfl, ?_⟩) _ h.txns
+    exact LRel.map_right_of_refl (R := PostEq) (fun p => { p with amount := p.amount.reverse })
+      (fun p hp => ⟨rfl, MEq.reverse hp.2.1, rfl⟩) _ ht.2
+  · refine LRel.map_right_of_refl _ (fun e _ => ?_) _ h.events
+    split
+    · exact Or.inl rfl
+    · rename_i hne; exact Or.inr ⟨rfl, hne⟩
+
+/-- reversing every map after every entry is a re-layout (so `Relayout` has non-trivial instances). -/
+theorem relayout_rev : Relayout (fun _ st => relayoutRev st) := fun _ _ h => relayoutRev_meq h
+
+/-- … and so is reversing after the even entries only (the layouts of two runs need not be related). -/
+theorem relayout_rev_even : Relayout (fun i st => if i % 2 = 0 then relayoutRev st else st) := by
+  intro i st h
+  simp only []
+  split
+  · exact relayoutRev_meq h
+  · exact h
 
 end Okane.C13
